@@ -88,18 +88,29 @@ def generate3d (frameCols : List String) (rows : List (List α × Label)) (colum
     | _, _, _ => .error .valueError
   | _ => .error .valueError
 
-def scatter2d (data : Frame α) (columns : Option (List String)) :=
-  generate2d data.cols (labelled data .real) columns
+/-- The default title is built BEFORE the arity test and indexes `columns[0] … columns[dim-1]`: a
+    non-empty request with fewer than `dim` names and no explicit title dies with an `IndexError`
+    (canonical kind `other`), as found.  (With `columns` empty/None the frame's own columns are
+    indexed instead; the harness only builds frames with at least two columns, for which that is safe.) -/
+def titleStep (dim : Nat) (columns : Option (List String)) (titled : Bool) : Except Err Unit :=
+  match columns with
+  | some (c :: cs) => if !titled && (c :: cs).length < dim then .error .other else .ok ()
+  | _ => .ok ()
 
-def scatter3d (data : Frame α) (columns : Option (List String)) :=
-  generate3d data.cols (labelled data .real) columns
+def scatter2d (data : Frame α) (columns : Option (List String)) (titled : Bool := false) :=
+  (titleStep 2 columns titled).bind fun _ => generate2d data.cols (labelled data .real) columns
+
+def scatter3d (data : Frame α) (columns : Option (List String)) (titled : Bool := false) :=
+  (titleStep 3 columns titled).bind fun _ => generate3d data.cols (labelled data .real) columns
 
 /-- `pd.concat([real, synth], axis=0, ignore_index=True)` of two frames with the same columns -/
-def compare2d (real synth : Frame α) (columns : Option (List String)) :=
-  generate2d real.cols (labelled real .real ++ labelled synth .synthetic) columns
+def compare2d (real synth : Frame α) (columns : Option (List String)) (titled : Bool := false) :=
+  (titleStep 2 columns titled).bind fun _ =>
+    generate2d real.cols (labelled real .real ++ labelled synth .synthetic) columns
 
-def compare3d (real synth : Frame α) (columns : Option (List String)) :=
-  generate3d real.cols (labelled real .real ++ labelled synth .synthetic) columns
+def compare3d (real synth : Frame α) (columns : Option (List String)) (titled : Bool := false) :=
+  (titleStep 3 columns titled).bind fun _ =>
+    generate3d real.cols (labelled real .real ++ labelled synth .synthetic) columns
 
 /-- the points of the trace(s) carrying label `l` -/
 def pointsOf {β : Type} (ts : List (Label × List β)) (l : Label) : List β :=
